@@ -29,8 +29,27 @@ build() { # $1 = race|plain
   fi
   local tmpout
   tmpout="$(mktemp "$BIN/.build.XXXXXX")"
-  ( cd "$ROOT/sim" && go build -modfile="$modfile" -tags verif $flags -o "$tmpout" ./cmd/simcheck ) 2>"$BIN/build-$1.log"
+  # scheduling hooks before every synchronisation operation of the sdfx packages:
+  # inserted into copies of the sources and fed to the compiler through -overlay
+  # (the tree at $REPO is not touched). If the instrumenter cannot cope with the
+  # sources the build goes ahead with the hand-placed hooks only.
+  local overlay="" inst
+  inst="$(mktemp -d)"
+  if [ "${VERIF_NO_AUTOHOOKS:-}" = "" ] && ( cd "$ROOT/sim" && go build -modfile="$modfile" -o "$BIN/instrument" ./cmd/instrument ) 2>>"$BIN/build-$1.log" \
+     && "$BIN/instrument" -repo "$REPO" -out "$inst" >"$BIN/instrument.log" 2>&1; then
+    overlay="-overlay=$inst/overlay.json"
+  else
+    echo "note: automatic hook insertion skipped (see $BIN/instrument.log)" >&2
+  fi
+  ( cd "$ROOT/sim" && go build -modfile="$modfile" -tags verif $flags $overlay -o "$tmpout" ./cmd/simcheck ) 2>"$BIN/build-$1.log"
   local rc=$?
+  if [ $rc -ne 0 ] && [ -n "$overlay" ]; then
+    # never let the instrumentation itself break a build that is fine without it
+    ( cd "$ROOT/sim" && go build -modfile="$modfile" -tags verif $flags -o "$tmpout" ./cmd/simcheck ) 2>"$BIN/build-$1.log"
+    rc=$?
+    [ $rc -eq 0 ] && echo "note: instrumented sources did not compile; built with the hand-placed hooks only" >&2
+  fi
+  rm -rf "$inst"
   [ -n "$tmpmod" ] && rm -rf "$tmpmod"
   if [ $rc -ne 0 ]; then
     rm -f "$tmpout"
